@@ -35,6 +35,10 @@ pub struct Case {
     /// only used when `min_size` is 1
     #[serde(default)]
     pub via_config_default: bool,
+    /// the encoder refuses the very first record of the first lifetime (nothing written, append reports the error):
+    /// the start-up rotation belongs to that record all the same - the trigger is consulted before encoding
+    #[serde(default)]
+    pub first_encode_fails: bool,
 }
 
 pub fn strategy() -> impl Strategy<Value = Case> {
@@ -47,9 +51,9 @@ pub fn strategy() -> impl Strategy<Value = Case> {
         lens(),
         prop::option::weighted(0.12, prop::collection::vec(prop::collection::vec(0usize..40, 1..=5), 2..=8)),
         prop::option::weighted(0.35, lens()),
-        (prop::bool::weighted(0.2), prop::bool::ANY, prop::bool::ANY),
+        (prop::bool::weighted(0.2), prop::bool::ANY, prop::bool::ANY, prop::bool::weighted(0.2)),
     )
-        .prop_map(|(min_size, pre, append_mode, count, records, threads, second_lifetime, (fail_first_roll, fail_after_moving, via_config_default))| Case { min_size, pre, append_mode, count, records, fail_first_roll: fail_first_roll && threads.is_none(), threads, second_lifetime, long_lifetime: 0, fail_after_moving, via_config_default })
+        .prop_map(|(min_size, pre, append_mode, count, records, threads, second_lifetime, (fail_first_roll, fail_after_moving, via_config_default, first_encode_fails))| Case { min_size, pre, append_mode, count, records, fail_first_roll: fail_first_roll && threads.is_none(), first_encode_fails: first_encode_fails && threads.is_none() && !fail_first_roll, threads, second_lifetime, long_lifetime: 0, fail_after_moving, via_config_default })
 }
 
 pub fn check(tmp: &Path, case: &Case, obs: &mut Obs) -> CaseResult {
@@ -92,7 +96,17 @@ fn check_in(dir: &Path, case: &Case, obs: &mut Obs) -> CaseResult {
         } else {
             make_flaky_policy_with(dir, &TrigSpec::OnStartup(case.min_size), &roller, &fail_script, case.fail_after_moving, &roll_failures).unwrap()
         };
-        let app = Arc::new(build_appender(&path, case.append_mode, &None, policy).map_err(|e| Failure { sig: "C17:build".into(), msg: e.to_string() })?);
+        let app = Arc::new(
+            if li == 0 && case.first_encode_fails {
+                log4rs::append::rolling_file::RollingFileAppender::builder()
+                    .append(case.append_mode)
+                    .encoder(Box::new(FailingEncoder { fail: vec![Some(0)], calls: std::sync::atomic::AtomicUsize::new(0) }))
+                    .build(&path, policy)
+            } else {
+                build_appender(&path, case.append_mode, &None, policy)
+            }
+            .map_err(|e| Failure { sig: "C17:build".into(), msg: e.to_string() })?,
+        );
         // size of the log file that exists at start-up as this appender sees it
         let start_content: Vec<u8> = if case.append_mode { on_disk_before.clone() } else { vec![] };
         let size_at_start = start_content.len() as u64;
@@ -171,11 +185,11 @@ fn check_in(dir: &Path, case: &Case, obs: &mut Obs) -> CaseResult {
             for (ri, len) in all.iter().enumerate() {
                 let rec = record_text(0, seq, *len);
                 seq += 1;
-                let failing_now = roll_fails && ri == 0;
+                let failing_now = (roll_fails || (li == 0 && case.first_encode_fails)) && ri == 0;
                 match catch(|| append_msg(&*app, &rec)) {
                     Err(p) => return fail("C17:panic", format!("append panicked: {}", p)),
                     Ok(Err(e)) => ensure!(failing_now, "C17:append-error", "append returned an error: {}", e),
-                    Ok(Ok(())) => ensure!(!failing_now, "C17:error-swallowed", "the start-up roll failed but the append reported success"),
+                    Ok(Ok(())) => ensure!(!failing_now, "C17:error-swallowed", "the start-up roll or the encoder failed but the append reported success"),
                 }
                 obs.sub_evals += 1;
                 if !failing_now {
@@ -216,20 +230,75 @@ fn check_in(dir: &Path, case: &Case, obs: &mut Obs) -> CaseResult {
     obs.class_if(case.second_lifetime.is_some(), "second-lifetime");
     obs.class_if(!case.append_mode, "truncate-mode");
     obs.class_if(case.fail_first_roll, "start-up-roll-fails");
+    obs.class_if(case.first_encode_fails, "encoder-refuses-the-first-record");
     obs.class_if(case.fail_first_roll && case.fail_after_moving, "roller-archives-then-fails");
     obs.class_if(case.via_config_default && case.min_size == 1, "trigger-from-config-without-min_size");
     obs.class_if(case.long_lifetime > 0, "lifetime>65536-records");
     Ok(())
 }
 
+/// Sizes beyond 32 bits: the pre-existing file is sparse (`set_len`), so nothing large is written; only sizes and
+/// names are inspected.
+#[derive(Serialize, Deserialize, Debug, Clone)]
+pub struct Huge {
+    pub file_size: u64,
+    pub min_size: u64,
+}
+
+pub fn check_huge(tmp: &Path, c: &Huge, obs: &mut Obs) -> CaseResult {
+    let dir = scratch(tmp, "c17h");
+    let r = (|| -> CaseResult {
+        let path = dir.join("app.log");
+        let f = std::fs::File::create(&path).unwrap();
+        if f.set_len(c.file_size).is_err() {
+            obs.class("sparse-files-unavailable(skipped)");
+            return Ok(());
+        }
+        drop(f);
+        let roller = RollSpec::Fixed { base: 0, count: 2, pattern: "old.{}.log".into() };
+        let policy = make_policy(&dir, &TrigSpec::OnStartup(c.min_size), &roller).unwrap();
+        let app = build_appender(&path, true, &None, policy).map_err(|e| Failure { sig: "C17:build".into(), msg: e.to_string() })?;
+        let rec = record_text(0, 0, 5);
+        match catch(|| append_msg(&app, &rec)) {
+            Err(p) => return fail("C17:panic", format!("append panicked: {}", p)),
+            Ok(Err(e)) => return fail("C17:append-error", format!("append failed: {}", e)),
+            Ok(Ok(())) => {}
+        }
+        let _ = append_msg(&app, &record_text(0, 1, 5));
+        let should = c.file_size >= c.min_size;
+        let arch = std::fs::metadata(dir.join("old.0.log")).map(|m| m.len()).ok();
+        let active = std::fs::metadata(&path).map(|m| m.len()).unwrap_or(0);
+        let two = 2 * rec.len() as u64;
+        if should {
+            ensure!(arch == Some(c.file_size) && active == two, "C17:missed-roll", "file of {} bytes at start-up, min_size {}: expected the file to be rolled; archive {:?} bytes, active {} bytes", c.file_size, c.min_size, arch, active);
+        } else {
+            ensure!(arch.is_none() && active == c.file_size + two, "C17:unexpected-roll", "file of {} bytes at start-up is smaller than min_size {}: it must not be rolled; archive {:?} bytes, active {} bytes", c.file_size, c.min_size, arch, active);
+        }
+        ensure!(!dir.join("old.1.log").exists(), "C17:extra-roll", "a second archive appeared");
+        obs.sub_evals += 1;
+        obs.nontrivial = true;
+        obs.class("sizes-beyond-32-bits");
+        Ok(())
+    })();
+    let _ = std::fs::remove_dir_all(&dir);
+    r
+}
+
 pub fn run(run: &Run) {
     let tmp = run.tmp.clone();
     let f = move |c: &Case, o: &mut Obs| check(&tmp, c, o);
     run.run_replays::<Case>("startup", &f);
+    if run.worker.0 == 1 % run.worker.1 {
+        let g: u64 = 1 << 32;
+        for (file_size, min_size) in [(g - 1, g), (g - 1, g - 1), (g, g + 1), (g + 10, 2 * g), (5 * g, u64::MAX), (5 * g, 5 * g), (g + 7, g + 8), (3 * g + 5, 3 * g + 4), (g - 2, g - 1)] {
+            let t = run.tmp.clone();
+            run.eval_one("huge", &Huge { file_size, min_size }, &move |c: &Huge, o: &mut Obs| check_huge(&t, c, o));
+        }
+    }
     if run.worker.0 == 0 {
         // one very long lifetime: the "first record" latch must hold beyond any counter width one might pick
         for (pre, min_size) in [(Some(10i64), 5u64), (Some(-3), 40)] {
-            run.eval_one("startup", &Case { min_size, pre, append_mode: true, count: 2, records: vec![3, 0, 7], threads: None, second_lifetime: None, fail_first_roll: false, long_lifetime: 70_000, fail_after_moving: false, via_config_default: false }, &f);
+            run.eval_one("startup", &Case { min_size, pre, append_mode: true, count: 2, records: vec![3, 0, 7], threads: None, second_lifetime: None, fail_first_roll: false, long_lifetime: 70_000, fail_after_moving: false, via_config_default: false, first_encode_fails: false }, &f);
         }
     }
     run.search("startup", run.tier.pick(1_500, 80_000), strategy(), &f);
@@ -244,6 +313,13 @@ pub fn replay(part: &str, case: serde_json::Value) -> Option<CaseResult> {
             let _ = std::fs::remove_dir_all(&tmp);
             Some(r)
         }
+        "huge" => {
+            let tmp = std::env::temp_dir().join(format!("lv-replay-{}", std::process::id()));
+            std::fs::create_dir_all(&tmp).ok()?;
+            let r = check_huge(&tmp, &serde_json::from_value(case).ok()?, &mut Obs::default());
+            let _ = std::fs::remove_dir_all(&tmp);
+            Some(r)
+        }
         _ => None,
     }
 }
@@ -251,7 +327,7 @@ pub fn replay(part: &str, case: serde_json::Value) -> Option<CaseResult> {
 pub fn meta() -> EvidenceMeta {
     EvidenceMeta {
         level: "exploration",
-        rule: "cases = min_size in {0,1,2,10,1000,random} x pre-existing file (absent, min-1, min, min+1, random) x append/truncate mode x window count 1-3 x a history of 1-20 appends (or a simultaneous start: 2-8 threads released by a barrier, 1-5 records each) x optional second appender lifetime on the same path; oracle after every append: rolled iff size at start-up >= min_size (0 in truncate mode); if rolled the newest archive is byte-identical to the pre-existing content and the active file is exactly the new records, else active = pre-existing ++ records; no further archive ever appears during the lifetime (all indices checked); threaded start: the active file parses into exactly the acknowledged records with per-thread order. The user-defined roller may fail on the start-up roll before or after moving the file (never made up for later; after a move the next record opens a fresh file); the trigger may come from the onstartup deserializer without min_size; two lifetimes of 70 000 records. non-trivial = |size at start - min_size| <= 1, or the threaded start, or min_size 0 with an empty/absent file".into(),
+        rule: "cases = min_size in {0,1,2,10,1000,random} x pre-existing file (absent, min-1, min, min+1, random) x append/truncate mode x window count 1-3 x a history of 1-20 appends (or a simultaneous start: 2-8 threads released by a barrier, 1-5 records each) x optional second appender lifetime on the same path; oracle after every append: rolled iff size at start-up >= min_size (0 in truncate mode); if rolled the newest archive is byte-identical to the pre-existing content and the active file is exactly the new records, else active = pre-existing ++ records; no further archive ever appears during the lifetime (all indices checked); threaded start: the active file parses into exactly the acknowledged records with per-thread order. The user-defined roller may fail on the start-up roll before or after moving the file (never made up for later; after a move the next record opens a fresh file); the trigger may come from the onstartup deserializer without min_size; two lifetimes of 70 000 records; the encoder may refuse the very first record (the rotation still belongs to it); part huge: sparse pre-existing files of 4 GiB - 2 ... 20 GiB against thresholds on either side. non-trivial = |size at start - min_size| <= 1, or the threaded start, or min_size 0 with an empty/absent file".into(),
         assumptions: vec!["OS scheduler not controlled: the simultaneous start is amplified by a barrier only".into()],
         mutants_caught: vec![],
     }
